@@ -7,6 +7,18 @@ Import ListNotations.
 Local Open Scope Z_scope.
 
 (* ================= default values (first read of a never-assigned trait) ================= *)
+Lemma vld_of_dom k x y : vld_of k x = Some y -> dom_of k y = true.
+Proof.
+  destruct k; cbn; intros H.
+  - reflexivity.
+  - destruct ((0 <=? x) && (x <? 100)) eqn:E; inversion H; subst. exact E.
+  - remember (vpart x) as v. clear Heqv.
+    destruct ((0 <=? v) && (v <? 100)) eqn:E; [inversion H; subst; exact E|].
+    destruct ((100 <=? v) && (v <? 200)) eqn:E2; [inversion H; subst; lia|].
+    destruct ((300 <=? v) && (v <? 400)) eqn:E3; inversion H; subst. lia.
+  - destruct ((0 <=? x) && (x <? 90)) eqn:E; inversion H; subst. lia.
+Qed.
+
 Lemma default_list_valid vk mn mx d l :
   default_list vk mn mx d = Ok l -> law_default (DfList vk mn mx d (Ok l)) = [].
 Proof.
@@ -16,12 +28,6 @@ Proof.
   assert (list_ok (dom_of vk) mn mx l = true) as ->; [|reflexivity].
   unfold list_ok. apply andb_true_iff. split.
   - apply forallb_Forall. eapply (vld_all_P (vld_of vk) (fun x => dom_of vk x = true)); [|exact V].
-    intros x y Hv. destruct vk; cbn in *.
-    + reflexivity.
-    + destruct ((0 <=? x) && (x <? 100)) eqn:E; inversion Hv; subst. exact E.
-    + destruct ((0 <=? x) && (x <? 100)) eqn:E; [inversion Hv; subst; exact E|].
-      destruct ((100 <=? x) && (x <? 200)) eqn:E2; [inversion Hv; subst; lia|].
-      destruct ((300 <=? x) && (x <? 400)) eqn:E3; inversion Hv; subst. lia.
-    + destruct ((0 <=? x) && (x <? 90)) eqn:E; inversion Hv; subst. lia.
+    intros x y Hv. eapply vld_of_dom. exact Hv.
   - pose proof (vld_all_length (vld_of vk) d l V) as E. unfold zlen in *. rewrite E. exact L.
 Qed.
